@@ -687,7 +687,12 @@ func (fv *FuncVC) checkFrame(env *Env, pos token.Pos) {
 	if fc.Opts["opt"] == "noframe" {
 		return // frame deliberately not checked (stated in the contract)
 	}
+	before := len(fv.Obls)
 	fv.frameObligations("frame", pos)
+	if len(fv.Obls) == before {
+		// no heap version differs from its entry version on this path: the frame holds syntactically
+		fv.oblige("frame", "unchanged", tTrue, pos, "no heap is written on this path")
+	}
 	envPre := fv.newEnv(fv.entry, fv.entry)
 	byHeap, _ := fv.clausesByHeap(envPre, fc.Modifies)
 	for _, g := range sortedKeys(fv.cur.ghost) {
